@@ -101,7 +101,12 @@ def search(ck, drv, tier, seed):
         def forward(self, c):
             return torch.cat([1000.0 * c.expand(-1, self.D), torch.zeros(c.shape[0], self.D, dtype=c.dtype)], 1)
     for D in (1, 2):
+        class Emb(nn.Module):          # an embedding network that is not the identity: c -> 3 c + 7
+            def forward(self, c):
+                return None if c is None else 3.0 * c + 7.0
         objs = {"ConditionalDiagonalNormal": ConditionalDiagonalNormal([D], context_encoder=Enc(D)),
+                "Flow(Identity, ConditionalDiagonalNormal, embedding 3c+7)": Flow(IdentityTransform(), ConditionalDiagonalNormal([D], context_encoder=Enc(D)),
+                                                                               embedding_net=Emb()),
                 "Flow(Identity, ConditionalDiagonalNormal)": Flow(IdentityTransform(), ConditionalDiagonalNormal([D], context_encoder=Enc(D))),
                 "Flow(Affine, ConditionalDiagonalNormal)": Flow(PointwiseAffineTransform(0.25, 1.0), ConditionalDiagonalNormal([D], context_encoder=Enc(D)))}
         for name, d in objs.items():
@@ -122,12 +127,14 @@ def search(ck, drv, tier, seed):
                             continue
                         ids = torch.round((smp - (0.25 if "Affine" in name else 0.0)) / 1000.0)
                         want = ctx.reshape(k, 1, 1).expand(k, n, D)
+                        if "embedding" in name:
+                            want = 3.0 * want + 7.0
                         if not torch.equal(ids, want):
                             ck.finding("pairing:sample-drawn-under-wrong-context-row:%s:%s" % (name, meth),
                                        "rows %d n %d: blocks carry context ids %s" % (k, n, ids[..., 0].tolist()), case)
                         if meth == "sample_and_log_prob":
                             lp2 = d.log_prob(smp.reshape(k * n, D), ctx.repeat_interleave(n, 0)).reshape(k, n)
-                            if not torch.allclose(r[1][1], lp2, atol=2e-3):
+                            if not torch.allclose(r[1][1], lp2, atol=2e-2 if "embedding" in name else 2e-3):
                                 ck.finding("pairing:returned-log_prob-is-not-log_prob-of-sample:%s" % name,
                                            "max diff %g" % float((r[1][1] - lp2).abs().max()), case)
     if drv is not None:
